@@ -36,6 +36,34 @@ type UpperTriangular struct {
 
 /* -------------------------------------------------------------------------- */
 
+// Undo the virtual row permutation p that was accumulated during pivoting,
+// i.e. move row p[i] of a, x, and b to row i. Notice that p is a general
+// permutation and not a sequence of interchanges as expected by
+// PermuteRows() and Permute().
+func permuteRows(a, x Matrix, b Vector, p []int) error {
+  for i := 0; i < len(p); i++ {
+    // rows 0, ..., i-1 are already in place; find the current
+    // position of the row that was initially at position p[i]
+    j := p[i]
+    for j < i {
+      j = p[j]
+    }
+    if j == i {
+      continue
+    }
+    if err := a.SwapRows(i, j); err != nil {
+      return err
+    }
+    if err := x.SwapRows(i, j); err != nil {
+      return err
+    }
+    b.Swap(i, j)
+  }
+  return nil
+}
+
+/* -------------------------------------------------------------------------- */
+
 func gaussJordan(a, x Matrix, b Vector, submatrix []bool) error {
   t := NewScalar(a.ElementType(), 0.0)
   c := NewScalar(a.ElementType(), 0.0)
@@ -158,16 +186,7 @@ func gaussJordan(a, x Matrix, b Vector, submatrix []bool) error {
     // normalize ith element in b
     b.At(p[i]).Div(b.At(p[i]), c)
   }
-  if err := a.PermuteRows(p); err != nil {
-    return err
-  }
-  if err := x.PermuteRows(p); err != nil {
-    return err
-  }
-  if err := b.Permute(p); err != nil {
-    return err
-  }
-  return nil
+  return permuteRows(a, x, b, p)
 singular:
   panic("system is computationally singular")
 }
